@@ -39,6 +39,10 @@ def strategy(ctx):
     rng = ctx.rng("c03-pool")
     size = 3 if ctx.tier == "quick" else 6
     pool_fixed = [ssmcase.draw_structure(rng, strategies=("fixedinterval",), steps=(2, 10)) for _ in range(size)]
+    # one implicit residual (Jacobian w.r.t. the highest derivative is not the identity) per pool
+    cfg = ssmcase.draw_structure(rng, strategies=("fixedinterval",), nmax=6, steps=(2, 8), lins=("implicit",))
+    cfg["cinit"] = False
+    pool_fixed.append(cfg)
     pool_fp = []
     for _ in range(max(1, size // 2)):
         cfg = ssmcase.draw_structure(rng, strategies=("fixedpoint",), nmax=5, dmax=2, inits=("exact", "inexact"), steps=(2, 2))
